@@ -22,9 +22,11 @@ type Scen struct {
 	Bound int
 	// Preemption selects preemption bounding instead of delay bounding.
 	Preemption bool
+	// Cases (optional) reports how many input cases one execution judged (batched scenarios)
+	Cases func(x *vsched.Exec) int
 	// Horizon overrides the default step horizon (batched input scenarios run long)
 	Horizon int
-	Body       func()
+	Body    func()
 	// Check returns "" or a violation message; Key (optional) is a stable identity of the failing
 	// history used to match known findings.
 	Check func(x *vsched.Exec) (msg string, key string)
@@ -149,6 +151,9 @@ func runScens(prop string, scens []Scen) *ShardResult {
 			}
 			o := sc.Obs(x)
 			res.Outcomes[hashStr(o)]++
+			if sc.Cases != nil {
+				res.Extra["input_cases_judged"] += sc.Cases(x)
+			}
 			for _, r := range x.Races {
 				if _, ok := res.Races[r.Key()]; !ok {
 					res.Races[r.Key()] = r.Threads
